@@ -58,6 +58,17 @@ def nt_fuzzy(tags, ops, impl):
     return tags.get("match", 0) > 0
 
 
+def nt_gosort(tags, ops, impl):
+    """a gosort case is non-trivial if some list was long enough to be merged (more than one block of 20) and had equal scores"""
+    return tags.get("merged", 0) > 0 and tags.get("ties", 0) > 0 or tags.get("find-merged", 0) > 0
+
+
+def gosort_stage(ctx, quick, seed_offset=11, hit_props=None):
+    """Go's sort.Stable with the fuzzy library's non-strict Less (Model/GoSort.lean `fuzzyStable`) against the real sort.Stable on a
+    fuzzy.Matches value and against fuzzy.Find itself: the order must be identical, ties included."""
+    return ctx.correspond("gosort", 400 if quick else 6000, nontrivial=nt_gosort, seed_offset=seed_offset, sample_n=1, hit_props=hit_props)
+
+
 def check_rune_tables(ctx, run, name):
     """FoldOK on the dumped tables: every `ri` line has a non-ASCII code point and a non-zero fold representative."""
     bad, n = [], 0
@@ -99,6 +110,8 @@ def run(ctx):
     r = ctx.correspond("fuzzy", 259, name="fuzzy-exhaustive", args={"exhaustive": "1", "maxt": "4" if quick else "5"},
                        nontrivial=nt_fuzzy, shrink=False, sample_n=0, seed_offset=1)
     ctx.exhaustive = True  # stream fuzzy-exhaustive: complete enumeration of its finite space (both tiers; larger in thorough)
+    # the library's final sort (tie order included): model of sort.Stable vs the toolchain's
+    gosort_stage(ctx, quick)
     # paired UseFuzzy off/on searches across thresholds, NLP on and off
     r = ctx.correspond("search", 120 if quick else 1000, name="search-c07", args={"stream": "c07"}, shrink=False, nontrivial=nt_search)
     check_rune_tables(ctx, r, "search-c07")
